@@ -213,7 +213,13 @@ class World:
         for _ in range(self.batch - 1):
             # a second event landing in the same loop iteration: only events that can happen at
             # this very instant (timers already due, external resumes / cancellations)
-            more = [b for b in self.enabled() if b.kind != "fire" or b.when <= vtime.CLOCK.now]
+            # (low-priority pauses are observation probes: released only when nothing else can
+            # happen, never as part of a batch)
+            more = [
+                b
+                for b in self.enabled()
+                if b.kind not in ("resume-low", "end") and (b.kind != "fire" or b.when <= vtime.CLOCK.now)
+            ]
             if not more:
                 break
             # choice 0 = run the loop now
